@@ -89,7 +89,7 @@ theorem tables_empty_when_idle (U : List String) (as : List Act) (s : S) (hok : 
     while the broker delivers to a consumer on the same channel swallows the delivery's header. -/
 theorem delivery_stolen_without_disjointness :
     ∃ s, run init [.acquire 1, .register 1 ["Basic.GetOk", "Basic.GetEmpty", "ContentHeader", "ContentBody"],
-        .send 1, .unsolicited ⟨"Basic.Deliver", 7, false⟩, .unsolicited ⟨"ContentHeader", 7, false⟩,
+        .send 1, .unsolicited { name := "Basic.Deliver", tag := 7, reply := false }, .unsolicited { name := "ContentHeader", tag := 7, reply := false },
         .dispatch, .dispatch] = some s ∧ s.handled ≠ s.unsol ∧ s.inflight = [] := by
   refine ⟨_, rfl, ?_, rfl⟩
   decide
@@ -138,9 +138,9 @@ theorem skel_Channel_on_frame : Gen.Skel.Channel_on_frame =
 
 /-! ## Non-vacuity: two callers, an unsolicited delivery in between -/
 def demo : List Act :=
-  [.acquire 1, .register 1 ["Queue.DeclareOk"], .send 1, .unsolicited ⟨"Basic.Deliver", 0, false⟩,
-   .reply [⟨"Queue.DeclareOk", 0, true⟩], .dispatch, .dispatch, .take 1, .remove 1, .release 1,
-   .acquire 2, .register 2 ["Queue.DeclareOk"], .send 2, .reply [⟨"Queue.DeclareOk", 1, true⟩],
+  [.acquire 1, .register 1 ["Queue.DeclareOk"], .send 1, .unsolicited { name := "Basic.Deliver", tag := 0, reply := false },
+   .reply [{ name := "Queue.DeclareOk", tag := 0, reply := true }], .dispatch, .dispatch, .take 1, .remove 1, .release 1,
+   .acquire 2, .register 2 ["Queue.DeclareOk"], .send 2, .reply [{ name := "Queue.DeclareOk", tag := 1, reply := true }],
    .dispatch, .take 2, .remove 2, .release 2]
 
 example : ActsOk ["Basic.Deliver"] demo := by
